@@ -139,6 +139,13 @@ class _DirFilter:
             elif len(h) > 3000:
                 self.gaveup = True
         fault = self.sf.fault
+        if fault is not None and fault[0] in ("replace", "swap", "dupdrop") and self.rec_start is not None and self.role == fault[1]:
+            # record-level manipulation: re-frame the record stream
+            if a < self.rec_start:
+                pre, rec = chunk[:self.rec_start - a], chunk[self.rec_start - a:]
+            else:
+                pre, rec = b"", chunk
+            return pre + self._frames(rec)
         if fault is None or self.rec_start is None or self.role != fault[1] or self.sf.fired is not None:
             return chunk
         kind, where, k = fault
@@ -168,6 +175,52 @@ class _DirFilter:
                 sender_end._connection_lost(failure.Failure(error.ConnectionLost()))
         r.callLater(0, do_cut)
         return chunk[:pos - a]
+
+
+def _frames(self, data):
+    """replace frame j by a copy of frame j-1 / swap frames j and j+1 / send frame j twice and drop
+    frame j+1 (all keep the byte count when the frames have equal size)"""
+    from .transit_work import split_frames
+    kind, where, j = self.sf.fault
+    self.rbuf = getattr(self, "rbuf", bytearray())
+    self.rbuf += data
+    frames, rest = split_frames(bytes(self.rbuf))
+    self.rbuf = bytearray(rest)
+    out = bytearray()
+    for f in frames:
+        i = self.findex = getattr(self, "findex", -1) + 1
+        prev = getattr(self, "prev", None)
+        held = getattr(self, "held", None)
+        if self.sf.fired is None or self.sf.fired is self:
+            if kind == "replace" and i == j and prev is not None and len(prev) == len(f):
+                self.sf.fired = self
+                out += prev
+                self.prev = f
+                continue
+            if kind == "swap" and i == j:
+                self.held = f
+                self.prev = f
+                continue
+            if kind == "swap" and i == j + 1 and held is not None:
+                self.sf.fired = self
+                out += f + held
+                self.held = None
+                self.prev = f
+                continue
+            if kind == "dupdrop" and i == j:
+                self.sf.fired = self
+                out += f + f
+                self.prev = f
+                continue
+            if kind == "dupdrop" and i == j + 1 and self.sf.fired is self and len(f) == len(prev or b""):
+                self.prev = f
+                continue
+        out += f
+        self.prev = f
+    return bytes(out)
+
+
+_DirFilter._frames = _frames
 
 
 def make_tree(rng, root, kind):
